@@ -7,6 +7,7 @@
 package memnet
 
 import (
+	"errors"
 	"context"
 	"io"
 	"math/rand"
@@ -32,6 +33,7 @@ type Dir struct {
 	closed    bool
 	hold      bool
 	blackhole bool
+	sendErr   bool
 	faults    Faults
 	rng       *rand.Rand
 	// counters
@@ -54,6 +56,9 @@ func (d *Dir) push(b []byte) error {
 	defer d.mu.Unlock()
 	if d.closed {
 		return io.ErrClosedPipe
+	}
+	if d.sendErr {
+		return errBrokenPipe
 	}
 	d.Pushed++
 	if d.blackhole {
@@ -143,6 +148,15 @@ func (d *Dir) SetHold(h bool) {
 	d.mu.Lock()
 	d.hold = h
 	d.cond.Broadcast()
+	d.mu.Unlock()
+}
+
+var errBrokenPipe = errors.New("write: broken pipe")
+
+// SetSendError makes every Send in this direction fail (the other direction keeps working): a one-way transport fault.
+func (d *Dir) SetSendError(b bool) {
+	d.mu.Lock()
+	d.sendErr = b
 	d.mu.Unlock()
 }
 
